@@ -3,7 +3,7 @@
 using namespace vf;
 
 namespace {
-enum Shape { FREE = 0, BATCH = 1, READER_HEAVY = 2, ORDERING = 3, WRITER_FREE = 4, RENDEZVOUS = 5 };
+enum Shape { FREE = 0, BATCH = 1, READER_HEAVY = 2, ORDERING = 3, WRITER_FREE = 4, RENDEZVOUS = 5, TWO_RESOURCES = 6 };
 
 // op: k = 0 read | 1 write, a = thread, b = bit0 guard, bits1-2 yields inside, bit3 nested read (writer-free only), c = flags of the nested op
 rc::Gen<std::vector<Op>> ops(int wr, int ww, int maxOps) {
@@ -31,7 +31,8 @@ Register r01("C01", [](Tier t) {
     int T = t == THOROUGH ? 8 : 5, n = t == THOROUGH ? 24 : 12, sl = t == THOROUGH ? 200 : 100;
     return rc::gen::weightedOneOf<Case>({{4, shapeCase("C01", FREE, 2, T, ops(3, 2, n), sl)},
                                          {4, shapeCase("C01", BATCH, 4, T, batchOps(n), sl)},
-                                         {2, shapeCase("C01", READER_HEAVY, 3, T, ops(5, 1, n), sl)}});
+                                         {2, shapeCase("C01", READER_HEAVY, 3, T, ops(5, 1, n), sl)},
+                                         {1, shapeCase("C01", TWO_RESOURCES, 3, T, ops(3, 2, n), sl)}});
 });
 Register r02("C02", [](Tier t) {
     int T = t == THOROUGH ? 8 : 5, n = t == THOROUGH ? 24 : 12, sl = t == THOROUGH ? 200 : 100;
@@ -43,12 +44,14 @@ Register r03("C03", [](Tier t) {
     int T = t == THOROUGH ? 8 : 6, n = t == THOROUGH ? 24 : 12, sl = t == THOROUGH ? 200 : 100;
     return rc::gen::weightedOneOf<Case>({{3, shapeCase("C03", FREE, 3, T, ops(3, 3, n), sl)},
                                          {2, shapeCase("C03", BATCH, 4, T, batchOps(n), sl)},
-                                         {5, shapeCase("C03", ORDERING, 3, T, ops(3, 3, n), sl)}});
+                                         {5, shapeCase("C03", ORDERING, 3, T, ops(3, 3, n), sl)},
+                                         {2, shapeCase("C03", TWO_RESOURCES, 3, T, ops(3, 2, n), sl)}});
 });
 Register r12("C12", [](Tier t) {
     int T = t == THOROUGH ? 8 : 6, n = t == THOROUGH ? 24 : 12, sl = t == THOROUGH ? 200 : 100;
     return rc::gen::weightedOneOf<Case>({{4, shapeCase("C12", WRITER_FREE, 2, T, ops(1, 0, n), sl)},
                                          {3, shapeCase("C12", FREE, 2, T, ops(4, 1, n), sl)},
-                                         {3, shapeCase("C12", RENDEZVOUS, 3, T, ops(3, 1, n), sl)}});
+                                         {3, shapeCase("C12", RENDEZVOUS, 3, T, ops(3, 1, n), sl)},
+                                         {1, shapeCase("C12", TWO_RESOURCES, 3, T, ops(4, 1, n), sl)}});
 });
 } // namespace
